@@ -85,9 +85,13 @@ CLAIMS["C11"] = (
     "TLA+ union denotation (XSem.tla union/seqstep) explored by TLC over all documents up to 4-5 nodes whose element "
     "names contain '-' and digits (a, a-1, a-1-1, b1), with repeated values, attributes, text, comments x all operand "
     "pairs of a path pool (incl. operands that deliver a node several times); replay requires each node exactly once; "
-    "seeded nested unions on larger documents recorded from the engine and validated by TLC",
+    "seeded nested unions on larger documents recorded from the engine and validated by TLC; the node identity key of "
+    "getHashCode specified in XHash.tla (KeyInjective by TLC on all documents up to 5-6 nodes incl. prefixed attributes; "
+    "the engine's hash must be FNV-64a of the specified key and collision-free, hook VerifHashCode); the union query in the "
+    "implementation-shaped model XQueryVM2 (VM2Once, VM2Refines) with the engine's delivery sequence and cursor movements compared",
     "Bounded-exhaustive model checking of A|B, nested unions and p/(a, b): overlapping, disjoint and equal operands; "
-    "identity confusion between distinct nodes is searched by enumerating names and shapes systematically.",
+    "identity confusion between distinct nodes is searched by enumerating names and shapes systematically and excluded "
+    "at design level by the injectivity of the identity key.",
     CLAIMS["C01"][2], "DESIGN.md 4/C11")
 CLAIMS["C13"] = (
     "TLA+ identities checked by TLC as theorems of the denotation (MC_Compose.tla Sanity) and the composed / wrapped "
